@@ -630,3 +630,51 @@ def outcome_under(stmts, val: dict):
         elif isinstance(st, (ast.For, ast.While, ast.Try, ast.With)):
             return "unknown", st
     return "fall", None
+
+
+def eval3(e, atom: Callable[[ast.AST], Optional[bool]]):
+    """three-valued truth of a test; `atom` decides the leaves (None = unknown); and/or short-circuit on a deciding operand"""
+    if isinstance(e, ast.BoolOp):
+        vs = [eval3(v, atom) for v in e.values]
+        if isinstance(e.op, ast.And):
+            return False if any(v is False for v in vs) else (None if any(v is None for v in vs) else True)
+        return True if any(v is True for v in vs) else (None if any(v is None for v in vs) else False)
+    if isinstance(e, ast.UnaryOp) and isinstance(e.op, ast.Not):
+        v = eval3(e.operand, atom)
+        return None if v is None else not v
+    if isinstance(e, ast.IfExp):
+        c = eval3(e.test, atom)
+        return None if c is None else eval3(e.body if c else e.orelse, atom)
+    if isinstance(e, ast.Constant):
+        return bool(e.value)
+    return atom(e)
+
+
+def exec_under(stmts, atom: Callable[[ast.AST], Optional[bool]]):
+    """(simple statements executed in order, outcome) of a block of if-trees when the tests are decided by `atom`;
+    outcome 'unknown' when a test is undecided or a compound statement other than `if` is met (the statement is the last effect)"""
+    eff = []
+    for st in stmts:
+        if isinstance(st, ast.If):
+            c = eval3(st.test, atom)
+            if c is None:
+                return eff + [st], "unknown"
+            e, k = exec_under(st.body if c else st.orelse, atom)
+            eff += e
+            if k != "fall":
+                return eff, k
+        elif isinstance(st, ast.Return):
+            return eff + [st], "return"
+        elif isinstance(st, ast.Continue):
+            return eff, "continue"
+        elif isinstance(st, ast.Break):
+            return eff, "break"
+        elif isinstance(st, ast.Raise):
+            return eff + [st], "raise"
+        elif isinstance(st, (ast.For, ast.While, ast.Try, ast.With, ast.Match)):
+            return eff + [st], "unknown"
+        elif isinstance(st, ast.Pass) or (isinstance(st, ast.Expr) and isinstance(st.value, ast.Constant)):
+            continue
+        else:
+            eff.append(st)
+    return eff, "fall"
